@@ -477,7 +477,11 @@ func (w *world) runScenario(sc *Scenario) {
 				js["scenario"] = trunc(oi)
 			}
 			h := sha256.Sum256([]byte(fmt.Sprintf("%d/%d/%d/%d", run.Seed, w.scenarioNo, ri, oi)))
-			em.Add(id, term, js, hex.EncodeToString(h[:8]), len(postFired) > 0 && len(postRows) > 1)
+			if out.Misplaced {
+				run.Dist["fault-misplaced:case-not-recorded"]++
+			} else {
+				em.Add(id, term, js, hex.EncodeToString(h[:8]), len(postFired) > 0 && len(postRows) > 1)
+			}
 
 			// ---- oracle
 			onCanon := post.Present && post.Number >= 0 && post.Number < int64(len(branch)) && bytes.Equal(branch[post.Number].Hash.Bytes(), post.Hash)
